@@ -113,7 +113,11 @@ def kernels(tier):
                 # derivative with symbolic coefficients
                 if d >= 1:
                     C = ca.MX.sym("c", 2, N + d)
-                    D = bspline_derivative(C, X, d)
+                    try:
+                        D = bspline_derivative(C, X, d)
+                    except Exception as e:
+                        c.fail("micro_spline:bspline_derivative:ensures:analytic-derivative-coefficients" + tag, "%s: %s" % (type(e).__name__, str(e)[:120]))
+                        continue
                     want = []
                     for i in range(N + d - 1):
                         den = K[i + d + 1] - K[i + 1]
